@@ -24,7 +24,8 @@
 //	                  by 8 goroutines 3-8 times each, every call on its own freshly parsed operands, while 8 other goroutines
 //	                  hammer Bounds/Len/Points/Extend/Overlaps/Intersection/Copy/Empty on unrelated large geometries of their
 //	                  own. The first answer that differs from the reference is reported (else the reference) and judged like
-//	                  <line>, class prefix `conc-`: all these operations are pure functions of their operands.
+//	                  <line>, class prefix `conc-`: all these operations are pure functions of their operands. Second phase
+//	                  (geom/ovl/int/empty): ONE operand set read by all 8 workers at once — nothing may write to it.
 package main
 
 import (
@@ -484,11 +485,15 @@ func gen(seed uint64, tier string) {
 	if tier == "thorough" {
 		nCC = 40
 	}
+	nBig := 0
 	for _, g := range corpus() {
 		n := 0
 		vproto.Safe(func() { n = g.Len() })
-		if n >= 256 && n <= 2100 {
-			fmt.Fprintf(out, "cc geom %s\n", vproto.GeomToks(g))
+		if n >= 256 && n <= 1100 {
+			// long enough for calls to overlap; every third one in quick (a cc line on 1000 vertices costs ~0.3 s of a loaded machine)
+			if nBig++; tier == "thorough" || nBig%3 == 0 {
+				fmt.Fprintf(out, "cc geom %s\n", vproto.GeomToks(g))
+			}
 		}
 	}
 	for k := 0; k < 4; k++ {
@@ -1083,8 +1088,11 @@ func runCC(inner string) string {
 	ref := runLine(inner)
 	const nW, nH = 8, 8
 	rounds := 8
-	if len(inner) > 20000 {
-		rounds = 3 // long lines: parsing and printing dominate, the calls overlap with the hammers anyway
+	switch {
+	case len(inner) > 20000:
+		rounds = 2 // long lines: parsing and printing dominate, the calls overlap with the hammers anyway
+	case len(inner) > 4000:
+		rounds = 4
 	}
 	var stop int32
 	var wgH, wgW sync.WaitGroup
@@ -1106,14 +1114,144 @@ func runCC(inner string) string {
 		}(w)
 	}
 	wgW.Wait()
+	// second phase, hammers still running: ONE set of operands read by all workers at once (nobody writes): a
+	// "read-only" method that scribbles on its receiver or operand and restores it is invisible sequentially
+	shared := make([]string, nW)
+	if ro, boxes, ok := roCall(inner); ok {
+		ref2 := ro(false)
+		iters := rounds
+		if len(boxes) > 0 {
+			iters = 4000 * rounds // box predicates take nanoseconds: many calls, or no two ever overlap
+		}
+		// disturbers: other READ-ONLY uses of the same shared boxes, with partners of their own (a far-away box, an
+		// empty one, a huge one) — e.g. a "read-only" method that clips its receiver in place and restores it
+		var stop2 int32
+		var wgD sync.WaitGroup
+		for d := 0; d < 4 && len(boxes) > 0; d++ {
+			wgD.Add(1)
+			go func(d int) {
+				defer wgD.Done()
+				far := &geom.Bounds{Min: P(1e300, 1e300), Max: P(1.5e300, 1.5e300)}
+				huge := &geom.Bounds{Min: P(math.Inf(-1), math.Inf(-1)), Max: P(math.Inf(1), math.Inf(1))}
+				var acc int
+				for i := 0; atomic.LoadInt32(&stop2) == 0; i++ {
+					vproto.Safe(func() {
+						x := boxes[(i+d)%len(boxes)]
+						if x.Overlaps(far) || far.Overlaps(x) || x.Empty() || x.Overlaps(huge) {
+							acc++
+						}
+						if x.Intersection(far) != nil || far.Intersection(x) != nil || huge.Intersection(x) == nil {
+							acc++
+						}
+						c := far.Copy()
+						c.Extend(x)
+						acc += x.Len() + int(math.Float64bits(x.Copy().Min.X)&1) + int(math.Float64bits(x.Points()().Y)&1)
+					})
+				}
+				atomic.AddUint64(&ccSink, uint64(acc))
+			}(d)
+		}
+		for w := 0; w < nW; w++ {
+			wgW.Add(1)
+			go func(w int) {
+				defer wgW.Done()
+				for k := 0; k < iters; k++ {
+					if s := ro(false); s != ref2 {
+						shared[w] = s
+						return
+					}
+				}
+			}(w)
+		}
+		wgW.Wait()
+		atomic.StoreInt32(&stop2, 1)
+		wgD.Wait()
+		// once more alone, now also comparing the operands with what was parsed (geom: `mut`)
+		if s := ro(true); s != ref2 {
+			shared = append(shared, s)
+		}
+	}
 	atomic.StoreInt32(&stop, 1)
 	wgH.Wait()
-	for _, s := range results {
+	for _, s := range append(results, shared...) {
 		if s != "" {
 			return s
 		}
 	}
 	return ref
+}
+
+// roCall parses the operands of a geom/ovl/int/empty line ONCE and returns a function that only reads them and
+// reports in the answer format of that line kind (for geom: the prefix of runGeom's answer that needs no writes).
+func roCall(inner string) (func(final bool) string, []*geom.Bounds, bool) {
+	p := vproto.NewParser(inner)
+	kind := p.Next()
+	var f func(final bool) string
+	var boxes []*geom.Bounds
+	pan := vproto.Safe(func() {
+		switch kind {
+		case "geom":
+			g := p.Geom()
+			before := vproto.GeomToks(g)
+			f = func(final bool) string {
+				var res strings.Builder
+				n := -1
+				if pan := vproto.Safe(func() { n = g.Len() }); pan != "" {
+					return "len panic pts nolen bnd " + safeBounds(g) + " mut 0"
+				}
+				var got []geom.Point
+				st := "ok"
+				if pan := vproto.Safe(func() {
+					it := g.Points()
+					for i := 0; i < n; i++ {
+						got = append(got, it())
+					}
+				}); pan != "" {
+					st = "panic"
+				}
+				fmt.Fprintf(&res, "len ok %d pts %s %s", n, st, ptsStr(got))
+				if st == "ok" {
+					res.WriteString(" indep 1")
+				}
+				res.WriteString(" bnd " + safeBounds(g))
+				if final && vproto.GeomToks(g) != before {
+					return res.String() + " mut 1"
+				}
+				return res.String() + " mut 0"
+			}
+		case "ovl":
+			a, b := parseBox(p), parseBox(p)
+			boxes = []*geom.Bounds{a, b}
+			f = func(final bool) string {
+				s := "panic"
+				vproto.Safe(func() { s = fmt.Sprintf("%v %v", a.Overlaps(b), b.Overlaps(a)) })
+				return s
+			}
+		case "int":
+			a, b := parseBox(p), parseBox(p)
+			A, B := boxToks(a), boxToks(b)
+			boxes = []*geom.Bounds{a, b}
+			f = func(final bool) string {
+				s := "panic"
+				vproto.Safe(func() {
+					s = polyRes(a.Intersection(b)) + " " + polyRes(b.Intersection(a))
+					if boxToks(a) != A || boxToks(b) != B {
+						s += " argmut"
+					}
+				})
+				return s
+			}
+		case "empty":
+			a := parseBox(p)
+			boxes = []*geom.Bounds{a}
+			f = func(final bool) string {
+				s := "panic"
+				vproto.Safe(func() { s = fmt.Sprintf("%v", a.Empty()) })
+				return s
+			}
+		}
+	})
+	return f, boxes, pan == "" && f != nil
 }
 
 func impl() {
@@ -1125,10 +1263,14 @@ func impl() {
 		}
 		ch := make(chan string, 1)
 		go func() { ch <- runLine(line) }()
+		wd := 3 * time.Second
+		if strings.HasPrefix(line, "cc ") {
+			wd = 30 * time.Second // 16 goroutines on a machine shared with other checks; still a watchdog, not a budget
+		}
 		var res string
 		select {
 		case res = <-ch:
-		case <-time.After(3 * time.Second):
+		case <-time.After(wd):
 			res = "timeout"
 			leaked++
 		}
